@@ -167,7 +167,13 @@ pub fn materialise(spec: &CaseSpec, ex: &Exclusions) -> (Rendered, String, usize
 /// (pointers every second declaration, the same client selection repeated with other arguments).
 fn materialise_inproc(spec: &CaseSpec, ex: &Exclusions) -> (Rendered, String, usize) {
     if (spec.variant / 8) % 4 != 0 {
-        let cfg = if (spec.variant / 32) % 2 == 0 { GenConfig::advanced().dense_refs() } else { GenConfig::everything().dense_refs() };
+        // the client-graph base has no refinements / @loadable / exposed fields, which keeps most of
+        // these programs clear of the recorded compiler crashes (C08) that would hide them
+        let cfg = match (spec.variant / 32) % 4 {
+            0 | 1 => GenConfig::client_graph().dense_refs(),
+            2 => GenConfig::advanced().dense_refs(),
+            _ => GenConfig::everything().dense_refs(),
+        };
         let p = build_project(spec.tape.clone(), &cfg);
         return (render(&p), "valid/dense-refs".to_string(), 0);
     }
